@@ -27,6 +27,15 @@ register reinterpret_cast return short signed sizeof static static_assert static
 throw true try typedef typeid typename union unsigned using virtual void volatile wchar_t while xor xor_eq std""".split())
 
 
+# global names of the C / C++ library headers the generated code includes: a schema named like one of them is the same finding as
+# a schema named like a keyword (the name is used verbatim as a namespace)
+C_LIBRARY_NAMES = set("""tm time clock div ldiv abs labs exit abort atoi atol atof rand srand free malloc calloc realloc qsort system
+getenv signal raise remove rename tmpfile tmpnam fopen fclose printf scanf puts gets getc putc fgets fputs fread fwrite fseek ftell
+stdin stdout stderr errno strlen strcpy strcat strcmp strchr strstr strtok memcpy memset memcmp memmove isalpha isdigit isspace
+toupper tolower sin cos tan exp log pow sqrt ceil floor fabs fmod sinh cosh tanh asin acos atan modf frexp ldexp wait sleep read
+write open close link unlink index rindex y0 y1 yn j0 j1 jn gamma""".split())
+
+
 def cq(x):
     return x.replace("\\", "\\\\").replace('"', '\\"')
 
@@ -419,10 +428,11 @@ def oracle_raw(R):
         first = re.sub(r"^.*?error: ", "", R.detail.split("\n")[0])
         texts = [w["expr"] for x in s.types + s.entities for w in x.get("wheres", [])] + \
                 [a.get("init", "") for e in s.entities for a in e["attrs"] if a["kind"] == "D"]
-        if any('"' in t for t in texts):
-            # decided from the input: EXPRESS text with a double quote is copied into a C++ string literal
+        if any('"' in t for t in texts) and re.search(r"missing terminating|string literal operator|stray .\\. in program", R.detail):
+            # EXPRESS text with a double quote copied into a C++ string literal (class decided from the input; the symptom only
+            # tells it from the other compile failures such a schema may have)
             sig = "double-quote-in-express-text"
-        elif R.schema.name.lower() in CXX_KEYWORDS:
+        elif R.schema.name.lower() in CXX_KEYWORDS | C_LIBRARY_NAMES:
             sig = "expected_(_before_::_token"              # finding F2: schema name used verbatim as a namespace
         elif re.search(r"Sdai\w+_var\w*\W+does not name a type|no declaration matches .const Sdai\w+_var\w*\W", R.detail):
             sig = "enum-class-used-before-its-typedef"        # names vary with the schema: classify
